@@ -7,8 +7,13 @@ package props
 import (
 	"encoding/json"
 	"fmt"
+	"github.com/Trendyol/go-dcp/api"
+	"io"
+	"net/http"
+	"os"
 	"regexp"
 	"strconv"
+	"strings"
 	"testing"
 	"time"
 
@@ -27,6 +32,9 @@ type c16Scenario struct {
 	Total   int         `json:"total"`   // initial group size
 	Member  int         `json:"member"`  // initial member number
 	Scrapes []c16Scrape `json:"scrapes"` // consumed in order by the "scrape" ops
+	// ViaHTTP: the scrapes go through the real HTTP API (fiber + prometheus registry on a local port, child process):
+	// GET <metric path> instead of Collect(), and GET /states/offset is compared with the tracked positions as well
+	ViaHTTP bool `json:"via_http,omitempty"`
 }
 
 type c16Scrape struct {
@@ -86,6 +94,27 @@ func c16Range(n, t, m int) (lo, hi int) {
 }
 
 func c16Exec(sc c16Scenario) (string, map[string]bool) {
+	if sc.ViaHTTP && os.Getenv("VERIF_CHILD") == "" {
+		r := runChild("c16http", sc, 120*time.Second)
+		if r.TimeOut {
+			return "scrapes through the HTTP API: the scenario hung", map[string]bool{}
+		}
+		if r.Exit != 0 {
+			return fmt.Sprintf("scrapes through the HTTP API: the process died (exit %d): %s", r.Exit, firstLine(r.Stderr)), map[string]bool{}
+		}
+		var res struct {
+			Detail string          `json:"detail"`
+			Labels map[string]bool `json:"labels"`
+		}
+		if err := json.Unmarshal(r.Result, &res); err != nil {
+			return "HARNESS: no result from the child: " + r.Stdout, map[string]bool{}
+		}
+		if res.Labels == nil {
+			res.Labels = map[string]bool{}
+		}
+		res.Labels["scraped_through_http_api"] = true
+		return res.Detail, res.Labels
+	}
 	h := sc.H
 	s := newSession(&h, "C16")
 	s.cfg.Dcp.Group.Membership.Type = membership.DynamicMembershipType
@@ -104,7 +133,58 @@ func c16Exec(sc c16Scenario) (string, map[string]bool) {
 	// before the first open the collector must not block or crash
 	s.openDeferred()
 	collector := metric.NewMetricCollector(s.cl, s.st, disc)
-	if _, pv, ret := c16Collect(collector); pv != nil || !ret {
+	collect := func() ([]c16Sample, any, bool) { return c16Collect(collector) }
+	offsetsViaAPI := func() (map[uint16]uint64, bool) { return nil, false }
+	if sc.ViaHTTP {
+		s.cfg.Debug = true // /states/offset is a debug endpoint
+		s.cfg.API.Disabled = false
+		s.cfg.API.Port = freePort()
+		s.cfg.Metric.Path = "/metrics"
+		a := api.NewAPI(s.cfg, s.cl, s.st, nil, []prometheus.Collector{collector}, bus)
+		go a.Listen()
+		base := fmt.Sprintf("http://127.0.0.1:%d", s.cfg.API.Port)
+		hc := &http.Client{Timeout: 10 * time.Second}
+		for i := 0; i < 400; i++ {
+			if resp, err := hc.Get(base + "/rebalance-not-there"); err == nil {
+				resp.Body.Close()
+				break
+			}
+			time.Sleep(5 * time.Millisecond)
+		}
+		collect = func() (out []c16Sample, pv any, ret bool) {
+			resp, err := hc.Get(base + "/metrics")
+			if err != nil {
+				return nil, fmt.Sprintf("GET /metrics: %v", err), true
+			}
+			defer resp.Body.Close()
+			body, _ := io.ReadAll(resp.Body)
+			if resp.StatusCode != 200 {
+				return nil, fmt.Sprintf("GET /metrics: status %d: %s", resp.StatusCode, strings.ReplaceAll(string(body), "\n", " / ")), true
+			}
+			return c16ParseExposition(string(body)), nil, true
+		}
+		offsetsViaAPI = func() (map[uint16]uint64, bool) {
+			resp, err := hc.Get(base + "/states/offset")
+			if err != nil {
+				return nil, false
+			}
+			defer resp.Body.Close()
+			body, _ := io.ReadAll(resp.Body)
+			var raw map[string]struct {
+				SeqNo uint64 `json:"SeqNo"`
+			}
+			if json.Unmarshal(body, &raw) != nil {
+				return nil, false // "stream is not open" text
+			}
+			out := map[uint16]uint64{}
+			for k, v := range raw {
+				n, _ := strconv.Atoi(k)
+				out[uint16(n)] = v.SeqNo
+			}
+			return out, true
+		}
+	}
+	if _, pv, ret := collect(); pv != nil || !ret {
 		return fmt.Sprintf("scrape before the stream was opened: returned=%v panic=%v", ret, pv), s.labels
 	}
 	s.openNow()
@@ -115,7 +195,7 @@ func c16Exec(sc c16Scenario) (string, map[string]bool) {
 		return c16Range(h.NumVb, total, member)
 	}
 	s.scrapeClosed = func() {
-		if _, pv, ret := c16Collect(collector); pv != nil || !ret {
+		if _, pv, ret := collect(); pv != nil || !ret {
 			s.fail("C16", "scrape while the stream is closed: returned=%v panic=%v", ret, pv)
 		}
 		s.label("scrape_while_closed")
@@ -156,10 +236,30 @@ func c16Exec(sc c16Scenario) (string, map[string]bool) {
 			s.cl.seqNoErr = fmt.Errorf("injected seqno failure")
 		}
 		s.cl.mu.Unlock()
-		samples, pv, ret := c16Collect(collector)
+		samples, pv, ret := collect()
+		if offs, ok := offsetsViaAPI(); ok {
+			for v := s.lo; v <= s.hi; v++ {
+				if m := s.vbs[uint16(v)]; m != nil && offs[m.vb] != m.maxSettle {
+					s.fail("C16", "GET /states/offset: vb %d seqNo %d, tracked position is %d", m.vb, offs[m.vb], m.maxSettle)
+				}
+			}
+			for vb := range offs {
+				if int(vb) < s.lo || int(vb) > s.hi {
+					s.fail("C16", "GET /states/offset lists vb %d outside the assigned range %d-%d", vb, s.lo, s.hi)
+				}
+			}
+			s.label("state_endpoint_compared")
+		}
 		s.cl.mu.Lock()
 		s.cl.seqNoErr = nil
 		s.cl.mu.Unlock()
+		if str, isStr := pv.(string); isStr && spec.SeqErr && strings.Contains(str, "injected seqno failure") {
+			// through HTTP the registry answers a scrape that contains an invalid sample (the lag of a failed sequence-number
+			// query) with status 500 and the collector's error: nothing untrue was exposed
+			s.label("scrape_seqno_error")
+			s.label("scrape_http_500_on_seqno_error")
+			return
+		}
 		if pv != nil || !ret {
 			s.fail("C16", "scrape: returned=%v panic=%v", ret, pv)
 			return
@@ -300,6 +400,7 @@ func TestC16_Metrics(t *testing.T) {
 		sc.Total = rapid.IntRange(1, 4).Draw(rt, "total")
 		sc.Member = rapid.IntRange(1, sc.Total).Draw(rt, "member")
 		sc.H.Lo, sc.H.Hi = c16Range(sc.H.NumVb, sc.Total, sc.Member)
+		sc.ViaHTTP = rapid.IntRange(0, 39).Draw(rt, "viahttp") == 23 // (rapid favours the ends of a range)
 		if rapid.IntRange(0, 2).Draw(rt, "skipuntil") == 0 {
 			sc.H.SkipAt = rapid.IntRange(2, 25).Draw(rt, "skipat") // document events older than that are dropped, and must not be counted
 		}
@@ -322,7 +423,42 @@ func TestC16_Metrics(t *testing.T) {
 	})
 }
 
+// c16ParseExposition reads the Prometheus text exposition format (cbgo_* samples only).
+func c16ParseExposition(body string) []c16Sample {
+	var out []c16Sample
+	for _, l := range strings.Split(body, "\n") {
+		if !strings.HasPrefix(l, "cbgo_") {
+			continue
+		}
+		sp := strings.LastIndexByte(l, ' ')
+		if sp < 0 {
+			continue
+		}
+		v, err := strconv.ParseFloat(strings.TrimSpace(l[sp+1:]), 64)
+		head := l[:sp]
+		x := c16Sample{labels: map[string]string{}, value: v, bad: err != nil}
+		if i := strings.IndexByte(head, '{'); i >= 0 {
+			x.name = head[:i]
+			for _, kv := range strings.Split(strings.TrimSuffix(head[i+1:], "}"), ",") {
+				if j := strings.IndexByte(kv, '='); j > 0 {
+					x.labels[kv[:j]] = strings.Trim(kv[j+1:], "\"")
+				}
+			}
+		} else {
+			x.name = head
+		}
+		out = append(out, x)
+	}
+	return out
+}
+
 func init() {
+	registerChild("c16http", func(raw json.RawMessage) any {
+		var sc c16Scenario
+		_ = json.Unmarshal(raw, &sc)
+		d, labels := c16Exec(sc)
+		return map[string]any{"detail": d, "labels": labels}
+	})
 	registerReplay("c16", func(raw json.RawMessage) string {
 		var sc c16Scenario
 		if err := json.Unmarshal(raw, &sc); err != nil {
